@@ -17,7 +17,7 @@ fn fmt_stub2(_a: core::fmt::Arguments<'_>) -> String {
 // @cost 100
 // @timeout 1200
 // @needs H0
-// @desc commit_header (whole body, backend shimmed) on a header without extensions: every request it sends starts at a block boundary and has a length that is a non-zero multiple of the block size; when the write fails the rollback closure runs and the error is returned
+// @desc commit_header (whole body, backend shimmed) on a header without extensions: every request it sends starts at a block boundary and has a length that is a non-zero multiple of the block size; when the read of the header block or the write fails the rollback closure runs and the error is returned (a failed read writes nothing)
 // @bounds header built directly (no extensions, no backing name); cluster_bits 9..=21; block bits 9..=12 symbolic; write outcome symbolic
 // @funcs Qcow2Dev::commit_header Qcow2Header::serialize_to_buf Qcow2RawHeader::serialize_vec
 // @stub alloc::fmt::format -> String::new()
@@ -28,8 +28,11 @@ fn c16_header_write() {
     let g = any_geo();
     let env = KEnv::new(info_of(&g, 1u64 << 40, false, false, false));
     let mut h = mk_header(g.cb, g.order, 1u64 << 40, 1, 1, false);
-    let fail: bool = kani::any();
-    env.fail_write.set(fail);
+    let fail_w: bool = kani::any();
+    let fail_r: bool = kani::any();
+    env.fail_write.set(fail_w);
+    env.fail_read.set(fail_r);
+    let fail = fail_w || fail_r;
     let rolled = core::cell::Cell::new(false);
     let r = env.seg_h0(&mut h, |_h| rolled.set(true));
     assert!(r.is_ok() == !fail);
@@ -52,8 +55,10 @@ fn c16_header_write() {
         }
         k += 1;
     }
-    assert!(writes == 1);
-    kani::cover!(fail);
+    // a failed read of the header block aborts before anything is written
+    assert!(writes == if fail_r { 0 } else { 1 });
+    kani::cover!(fail_r);
+    kani::cover!(fail_w && !fail_r);
     kani::cover!(!fail && g.bs == 12);
     core::mem::forget(r);
     core::mem::forget(h);
